@@ -1536,6 +1536,9 @@ class CrossSectionGroupManager(interfaces.Interface):
         for xsID in self._unrepresentedXSIDs:
             missingXsType, _missingEnvGroup = xsID
             nonRepBlocks = blockCollectionsByXsGroup.get(xsID)
+            if nonRepBlocks and len(nonRepBlocks[0].p.xsType) > 1:
+                # two-character types have no environment groups to fall back on
+                continue
             if nonRepBlocks:
                 newEnvGroup = self._getAlternateEnvGroup(missingXsType)
                 if newEnvGroup:
